@@ -145,7 +145,7 @@ public:
         return d;
     }
     void globalInit() override { if (!inited) { XMLPlatformUtils::Initialize(XMLUni::fgXercescDefaultLocale, 0, 0, new CachingGlobalMM()); inited = true; } }
-    uint64_t defaultRuns(const std::string& tier) const override { return tier == "quick" ? 40000 : 800000; }
+    uint64_t defaultRuns(const std::string& tier) const override { return tier == "quick" ? 200000 : 3000000; }
 
     Json generate(uint64_t seed, uint64_t index, const std::string& tier) override {
         (void)tier; Rng wr = runRng(seed, index, "workload"), fr = runRng(seed, index, "faults");
@@ -395,7 +395,7 @@ public:
         Json as = Json::arr(); as.push("xml:base attributes are not compared literally; base fix-up is judged by whether nested relative hrefs inside included content reach the files the model says they designate"); d.set("assumptions", as); return d;
     }
     void globalInit() override { if (!inited) { XMLPlatformUtils::Initialize(XMLUni::fgXercescDefaultLocale, 0, 0, new CachingGlobalMM()); inited = true; } }
-    uint64_t defaultRuns(const std::string& tier) const override { return tier == "quick" ? 20000 : 400000; }
+    uint64_t defaultRuns(const std::string& tier) const override { return tier == "quick" ? 200000 : 3000000; }
 
     // the encoding of a text file is a function of its name, so that includes generated before the file know it
     static std::string textEncOf(const std::string& path) { unsigned h = (unsigned)(fnv1a(path) % 4); return h == 2 ? "UTF-16" : h == 3 ? "ISO-8859-1" : ""; }
